@@ -31,7 +31,7 @@ def main():
             name = p.split("/")[-2]
             jobs.append((name, p, ALL if mode == "--all" or not name[:3] in ALL else [name[:3]]))
     results = {}
-    with ThreadPoolExecutor(max_workers=14) as ex:
+    with ThreadPoolExecutor(max_workers=int(os.environ.get("SEEDM_WORKERS", "14"))) as ex:
         for seed, res in ex.map(one, jobs):
             results[seed] = res
             own = seed.split("/")[0][:3]
